@@ -351,9 +351,14 @@ class Run(RunBase):
                 self.faults["caller-reuses-input-buffers"] += 1
             arrs = caller.buffers
         try:
-            out = calc.Lij(*arrs, **OM2[mode])
+            if self.w.get("kwcalls") and (k + len(caller.rets)) % 2:
+                # the same call with keyword arguments (as the documentation's examples write it)
+                names = ("bFV", "bFS", "bFSV", "bFT0", "bFT1", "bFT2")
+                out = calc.Lij(**dict(zip(names, arrs)), **OM2[mode])
+                self.probes["lij-by-keywords"] += 1
+            else:
+                out = calc.Lij(*arrs, **OM2[mode])
         except Exception as e:
-            from simkit.core import raised_in_sut
             return ("exc", type(e).__name__, e)
         out = list(out)
         caller.rets.extend(out)
@@ -1029,6 +1034,7 @@ class Engine(object):
              "buffers": rng.random() < 0.5}
         w["memo_inputs"] = rng.random() < 0.5
         w["own_crystal"] = rng.random() < 0.5
+        w["kwcalls"] = rng.random() < 0.5
         w["class"] = "{}/N{}/G{}".format(c, "".join(map(str, ranges)), "".join(map(str, grids)))
         return w
 
